@@ -15,6 +15,7 @@ package control
 
 import (
 	"context"
+	"encoding/binary"
 	"encoding/json"
 	stderrors "errors"
 	"io"
@@ -34,6 +35,7 @@ import (
 	componentdialer "github.com/daeuniverse/dae/component/outbound/dialer"
 	"github.com/daeuniverse/outbound/netproxy"
 	"github.com/sirupsen/logrus"
+	"golang.org/x/net/ipv6"
 )
 
 type c13Cmd struct {
@@ -1834,5 +1836,205 @@ func TestVerifC13TrackerFine(t *testing.T) {
 			c13StuckCount++
 		}
 		return r
+	})
+}
+
+// ---------------------------------------------------------------------------------------------
+// part 6: udpIngressBatchReader — ownership of the per-packet ingress buffers (ReadBatch -> Take -> task).
+// The real reader is driven with a scripted batch source; the task of a taken packet stays pending (it holds
+// the buffer Take handed out) until a "run" command, while further batches arrive in the same slots.
+// ---------------------------------------------------------------------------------------------
+
+type c13IOp struct {
+	Kind string  `json:"kind"` // read take run close
+	Dgs  [][]int `json:"dgs"`  // read: (payload, address valid)
+	I    int     `json:"i"`
+	T    int     `json:"t"`
+}
+
+type c13ICase struct {
+	Slots int      `json:"slots"`
+	Ops   []c13IOp `json:"ops"`
+}
+
+type c13IStep struct {
+	Slots [][]int `json:"slots"` // per slot: buf id, buffers[0] id (-1 nil)
+	Tasks [][]int `json:"tasks"` // per task: buffer id, expected payload, done, handled payload
+	Puts  []int   `json:"puts"`  // buffers returned to the pool by this operation
+}
+
+type c13BatchSource struct {
+	next [][]int
+}
+
+func (c *c13BatchSource) ReadBatch(ms []ipv6.Message, _ int) (int, error) {
+	n := len(c.next)
+	if n > len(ms) {
+		n = len(ms)
+	}
+	for j := 0; j < n; j++ {
+		b := ms[j].Buffers[0]
+		binary.BigEndian.PutUint32(b, uint32(c.next[j][0]))
+		ms[j].N = 4
+		ms[j].NN = 0
+		if c.next[j][1] != 0 {
+			ms[j].Addr = &net.UDPAddr{IP: net.IPv4(127, 0, 0, 1), Port: 4000 + c.next[j][0]%1000}
+		} else {
+			ms[j].Addr = nil
+		}
+	}
+	return n, nil
+}
+
+type c13ITask struct {
+	buf     []byte
+	put     func()
+	id      int
+	expect  int
+	done    bool
+	handled int
+}
+
+func c13RunICase(c c13ICase) (res []c13IStep) {
+	src := &c13BatchSource{}
+	var r *udpIngressBatchReader
+	if conn, err := net.ListenUDP("udp4", &net.UDPAddr{IP: net.IPv4(127, 0, 0, 1)}); err == nil {
+		defer conn.Close()
+		r = newUDPIngressBatchReader(conn, c.Slots)
+	}
+	if r == nil {
+		r = &udpIngressBatchReader{slots: make([]udpIngressBatchSlot, c.Slots), msgs: make([]ipv6.Message, c.Slots)}
+		for i := range r.slots {
+			r.slots[i].buffers = make([][]byte, 1)
+			r.msgs[i].Buffers = r.slots[i].buffers
+			r.msgs[i].OOB = r.slots[i].oob[:]
+		}
+	}
+	r.pc = src
+	live := map[*byte]int{}
+	nextID := 0
+	idOf := func(b []byte) int {
+		if b == nil || cap(b) == 0 {
+			return -1
+		}
+		p := &b[:1][0]
+		if id, ok := live[p]; ok {
+			return id
+		}
+		live[p] = nextID
+		nextID++
+		return nextID - 1
+	}
+	forget := func(b []byte) {
+		if b != nil && cap(b) > 0 {
+			delete(live, &b[:1][0])
+		}
+	}
+	var tasks []*c13ITask
+	lastPayload := make([]int, c.Slots)
+	observe := func(puts []int) {
+		st := c13IStep{Puts: puts, Slots: [][]int{}, Tasks: [][]int{}}
+		if st.Puts == nil {
+			st.Puts = []int{}
+		}
+		for i := range r.slots {
+			st.Slots = append(st.Slots, []int{idOf(r.slots[i].buf), idOf(r.slots[i].buffers[0])})
+		}
+		for _, t := range tasks {
+			d := 0
+			if t.done {
+				d = 1
+			}
+			st.Tasks = append(st.Tasks, []int{t.id, t.expect, d, t.handled})
+		}
+		res = append(res, st)
+	}
+	exec := func(op c13IOp) {
+		var puts []int
+		switch op.Kind {
+		case "read":
+			src.next = op.Dgs
+			_, _ = r.ReadBatch()
+			for j := range lastPayload {
+				lastPayload[j] = -1
+			}
+			for j, d := range op.Dgs {
+				if j < c.Slots {
+					lastPayload[j] = d[0]
+				}
+			}
+		case "take":
+			if op.I >= 0 && op.I < c.Slots {
+				before := r.slots[op.I].buf
+				beforeID := -1
+				if before != nil {
+					beforeID = idOf(before)
+				}
+				buf, _, _, ok := r.Take(op.I)
+				if ok {
+					b := []byte(buf)
+					tasks = append(tasks, &c13ITask{buf: b, put: buf.Put, id: idOf(b), expect: lastPayload[op.I]})
+				} else if before != nil && r.slots[op.I].buf == nil {
+					// no valid source address: Take returned the buffer to the pool
+					puts = append(puts, beforeID)
+					forget(before)
+				}
+			}
+		case "run":
+			if op.T >= 0 && op.T < len(tasks) && !tasks[op.T].done {
+				t := tasks[op.T]
+				t.handled = int(binary.BigEndian.Uint32(t.buf[:4]))
+				t.done = true
+				puts = append(puts, t.id)
+				forget(t.buf)
+				t.put()
+			}
+		case "close":
+			var held [][]byte
+			for i := range r.slots {
+				if r.slots[i].buf != nil {
+					held = append(held, r.slots[i].buf)
+				}
+			}
+			heldB0 := make([]bool, len(r.slots))
+			for i := range r.slots {
+				heldB0[i] = r.slots[i].buffers[0] != nil
+			}
+			r.Close()
+			for _, b := range held {
+				// a buffer that was in a slot and is not owned by a pending task is taken to be returned
+				owned := false
+				for _, t := range tasks {
+					if !t.done && len(t.buf) > 0 && &t.buf[:1][0] == &b[:1][0] {
+						owned = true
+					}
+				}
+				if !owned {
+					puts = append(puts, idOf(b))
+					forget(b)
+				}
+			}
+		}
+		observe(puts)
+	}
+	for _, op := range c.Ops {
+		exec(op)
+	}
+	for i, t := range tasks {
+		if !t.done {
+			exec(c13IOp{Kind: "run", T: i})
+		}
+	}
+	exec(c13IOp{Kind: "close"})
+	return res
+}
+
+func TestVerifC13Ingress(t *testing.T) {
+	verifEachLine(t, func(line []byte) any {
+		var c c13ICase
+		if err := json.Unmarshal(line, &c); err != nil {
+			return map[string]string{"panic": "bad case: " + err.Error()}
+		}
+		return map[string]any{"steps": c13RunICase(c)}
 	})
 }
